@@ -40,8 +40,19 @@ def has_any_call(names: Iterable[str], suffix: bool = False) -> Pred:
 
 
 def is_test_with_call(name: str, args: list[str] | None = None) -> Pred:
-    p = has_call(name, args)
-    return lambda n: n.kind == 'test' and p(n)
+    """The node is a test whose condition *is* that call (so that the true
+    edge means the call returned true; a negated or combined condition does
+    not match)."""
+    def pred(n: Node) -> bool:
+        if n.kind != 'test':
+            return False
+        t = n.stmt.test  # type: ignore[union-attr]
+        if isinstance(t, ast.Await):
+            t = t.value
+        if not isinstance(t, ast.Call) or norm(t.func) != name:
+            return False
+        return args is None or [norm(a) for a in t.args] == args
+    return pred
 
 
 def assigns(target: str, value: str | None = None) -> Pred:
